@@ -978,13 +978,13 @@ class Server:
                             asyncio.create_task(self.parse_command(stream)),
                         )
                         cmd, rest = result
+                        if cmd not in ("retr", "stor", "appe"):
+                            connection.restart_offset = 0
                         f = self.commands_mapping.get(cmd)
                         if f is not None:
                             pending.add(
                                 asyncio.create_task(f(connection, rest)),
                             )
-                            if cmd not in ("retr", "stor", "appe"):
-                                connection.restart_offset = 0
                         else:
                             message = f"{cmd!r} not implemented"
                             connection.response("502", message)
